@@ -61,6 +61,19 @@ FORMS = [
 ]
 
 
+# forms that denote DIFFERENT values than the first of their group (a quoted generic name is an ordinary family name)
+DISTINCT = [
+  ("fontFamily", "s", ["serif", '"serif"', "'serif'"]),
+  ("fontFamily", "s", ["monospace, Arial", "Arial, monospace"]),
+  ("color", "s", ["#ff0000", "#ff000080", "#00ff00"]),
+  ("textDecoration", "s", ["underline", "overline", "lineThrough"]),
+  ("padding", "r", ["1c 2c", "2c 1c"]),
+  ("origin", "r", ["10% 20%", "20% 10%"]),
+  ("extent", "r", ["50% 40%", "40% 50%"]),
+  ("textOutline", "s", ["2px", "red 2px", "4px"]),
+]
+
+
 def _observe(prop, host, form):
   import ttconv.imsc.reader as reader
   import ttconv.model as m
@@ -94,7 +107,7 @@ def _observe(prop, host, form):
 
 def run_forms():
   out = []
-  for prop, host, groups in FORMS:
+  for prop, host, groups, distinct in [(p, h, gs, 0) for p, h, gs in FORMS] + [(p, h, [g], 1) for p, h, g in DISTINCT]:
     for g in groups:
       items = []
       xmls = []
@@ -102,7 +115,7 @@ def run_forms():
         it, xml = _observe(prop, host, form)
         items.append(it)
         xmls.append(xml)
-      rec = {"id": 0, "kind": "forms", "prop": prop, "items": [{k: v for k, v in it.items() if k != "err"} for it in items]}
+      rec = {"id": 0, "kind": "forms", "prop": prop, "distinct": distinct, "items": [{k: v for k, v in it.items() if k != "err"} for it in items]}
       meta = {"origin": "forms", "prop": prop, "err": "; ".join(it["err"] for it in items if it["err"]), "xml": xmls[0],
               "logmsgs": [], "forms": g}
       out.append((rec, meta))
